@@ -44,6 +44,10 @@ def alg_check(ctx):
     open(p, "w").write(src.replace(src[src.index("INVARIANTS"):src.index("CHECK_DEADLOCK")], "INVARIANTS PaysIncrementShrunk\n"))
     r = ctx.tlc(_wallet.SPEND, "WalletBumpAlg", p, name="MC_bump_shrunk", workers=2, expect_violation=True, timeout=1200)
     ctx.extra["model_reproduces_known_finding"] = (r.violated == "PaysIncrementShrunk")
+    p2 = os.path.join(ctx.work, "MC_bump_weight.cfg")
+    open(p2, "w").write(src.replace(src[src.index("INVARIANTS"):src.index("CHECK_DEADLOCK")], "INVARIANTS HigherRateWeight\n"))
+    r2 = ctx.tlc(_wallet.SPEND, "WalletBumpAlg", p2, name="MC_bump_weight", workers=2, expect_violation=True, timeout=1200)
+    ctx.extra["model_reproduces_known_finding2"] = (r2.violated == "HigherRateWeight")
 
 
 def bump_stats(lines, ev, nontrivial):
@@ -91,12 +95,26 @@ def is_known_finding(line, inv):
     return a["feerate"] < 0 and len(a["outputs"]) > 0 and n["vsize"] < g["vsize"]
 
 
+FINDING2_KEY = "bump:weight-rounding-feerate-diagram"
+
+
+def is_known_finding2(line, inv):
+    """The replacement needed additional inputs, and its feerate - higher than the original's when sizes are rounded up to vbytes, as the
+    wallet computes - is not higher in exact weight units, which is what the mempool's feerate-diagram check compares."""
+    if inv != "ObsBumpReplaces" or not line["res"]["ok"]:
+        return False
+    g, n = line["orig"], line["res"]["new"]
+    newfee = n["invalue"] - sum(o["v"] for o in n["outs"])
+    return (line["res"]["accept"].get("why") == "replacement-failed" and len(n["ins"]) > len(g["ins"]) and "weight" in n and
+            newfee * g["weight"] <= g["fee"] * n["weight"] and newfee * g["vsize"] > g["fee"] * n["vsize"])
+
+
 def run(ctx):
     binary = ctx.build_adapter("walletnode")
     quick = ctx.tier == "quick"
     only = os.environ.get("VERIF_C56_ONLY", "")           # "trace": skip the pure TLC runs (seeded self-tests)
-    if os.environ.get("VERIF_C56_KNOWN_LOCAL"):           # self-tests before the finding is listed in known_findings.jsonl
-        ctx._known.append(dict(status="known", property="C56", key=FINDING_KEY, what="replacement smaller than the original pays less than the original (EstimateFeeRate)"))
+    if os.environ.get("VERIF_C56_KNOWN_LOCAL"):           # self-tests before a finding is listed in known_findings.jsonl
+        ctx._known.append(dict(status="known", property="C56", key=FINDING2_KEY, what="replacement with added inputs: feerate higher per vbyte (rounded up) but not per weight unit"))
     with concurrent.futures.ThreadPoolExecutor(max_workers=2) as ex:
         fut = ex.submit(alg_check, ctx) if only != "trace" else None
         num, depth = (56, 26) if quick else (700, 30)
@@ -117,7 +135,12 @@ def run(ctx):
         ctx.violation(FINDING_KEY, "%s is false: replacement smaller than the original, estimated feerate: %s" % (inv, _wallet.short_call(line)),
                       dict(adapter="walletnode", mode="script", args=[ctx.seed], case=tests[line["index"]], invariant=inv, observed=line))
     ev["known_finding_instances"] = len(known)
-    _wallet.report(ctx, "C56", tests, [(l, i) for l, i in bad if not is_known_finding(l, i)])
+    known2 = [(l, i) for l, i in bad if is_known_finding2(l, i)]
+    for line, inv in known2:
+        ctx.violation(FINDING2_KEY, "%s is false: replacement with added inputs has a lower feerate per weight unit than the original: %s" % (inv, _wallet.short_call(line)),
+                      dict(adapter="walletnode", mode="script", args=[ctx.seed], case=tests[line["index"]], invariant=inv, observed=line))
+    ev["known_finding2_instances"] = len(known2)
+    _wallet.report(ctx, "C56", tests, [(l, i) for l, i in bad if not is_known_finding(l, i) and not is_known_finding2(l, i)])
     ctx.extra["events"] = dict(sorted(ev.items()))
     missing = [k for k in (NEED if quick else NEED_THOROUGH) if not ev.get(k)]
     if missing and not ctx.violations:
